@@ -153,6 +153,7 @@ def drive(mod, prop, tier, seed, budget_s, max_runs, selftest_n, nworkers=None, 
     evidence = dict(property_id=prop, tier=tier, seed=seed, level='exploration', coverage=cov,
                     assumptions=mod.ASSUMPTIONS, wall_s=round(wall, 2), violations=0)
 
+    evidence['_digests'] = {str(i): [s_.get('digest'), bool(s_.get('violations'))] for i, s_ in summaries.items()}
     code = EXIT_OK
     if mismatches:
         harness_errors.append(f'determinism self-test failed for runs {mismatches[:10]}')
@@ -205,6 +206,7 @@ def drive(mod, prop, tier, seed, budget_s, max_runs, selftest_n, nworkers=None, 
 
 def write_evidence(prop, evidence):
     os.makedirs(os.path.join(VERIF, 'evidence'), exist_ok=True)
+    evidence = {k: v for k, v in evidence.items() if not k.startswith('_')}
     p = os.path.join(VERIF, 'evidence', f'{prop}.json')
     tmp = p + '.tmp'
     with open(tmp, 'w') as f:
